@@ -51,4 +51,5 @@ proof fn lemma_set_opaque_is_opaque<L: FileSystem>(l: &L, ctx: Context, ino: u64
 { }
 '''))
     u = Unit('ovl_layer', items, preludes=['base.rs', 'stdmodel.rs'], generic_tags=C.GENERIC_TAGS, notes='; '.join(notes))
+    u.prelude_subst = [C.LIBC_EXTRA]
     return u
